@@ -146,7 +146,7 @@ func randomPart(name string, quick, thorough int, o kvOpts) sup.Part {
 			if keys == nil {
 				keys = defaultKeys
 			}
-			g := &kv.Gen{R: r, Keys: keys, Colls: cfg.Colls, Bkts: cfg.Buckets, Hnd: cfg.Handles, Big: o.BigBodies}
+			g := &kv.Gen{R: r, Keys: keys, Colls: cfg.Colls, Bkts: cfg.Buckets, Hnd: cfg.Handles, Big: o.BigBodies, EmptyX: 12}
 			steps := o.Steps
 			if c.Tier == "thorough" {
 				steps *= 2
